@@ -140,7 +140,8 @@ class Gen:
         self.pw = bytes(rng.randrange(1, 256) for _ in range(rng.choice([0, 1, 6, 31, 32, 33, 40])))
         self.check_ip = rng.random() < 0.7 if check_ip is None else check_ip
         self.netbits = rng.choice([24, 27, 28, 29, 30, 16, 8]) if netbits is None else netbits
-        self.myip = 0x0a000000 | rng.choice([1, 2, 5, 14])
+        # server addresses incl. ones written with three digits in every octet (15 characters: the longest dotted quad)
+        self.myip = rng.choice([0x0a000001, 0x0a000002, 0x0a000005, 0x0a00000e, 0xc0a86481, 0xac64c864, 0xc0a8c8fe])
         self.mtu = 1130
         self.bind = rng.choice([0, 0, 5353]) if bind is None else bind
         self.now = 1000
